@@ -28,7 +28,27 @@ def load_cases(prop):
     spec = importlib.util.spec_from_file_location('cases_' + prop.lower(), p)
     mod = importlib.util.module_from_spec(spec)
     spec.loader.exec_module(mod)
-    return list(mod.CASES) + seeded_cases(prop)
+    return list(mod.CASES) + seeded_cases(prop) + neutral_cases(prop)
+
+
+def neutral_cases(prop):
+    """the behaviour-preserving refactorings kept under /verif/neutral (each confirmed: pinned suite 213/213, demo unchanged) that
+    this property's check is known to stay silent on: replayed as neutral variants - a rule change that turns one of them into an
+    alarm is a regression of the checker"""
+    import json
+    idx = os.path.join(VERIF, 'neutral', 'PASSING.json')
+    if not os.path.exists(idx):
+        return []
+    try:
+        passing = json.load(open(idx)).get('passing', {})
+    except ValueError:
+        return []
+    out = []
+    for nid in sorted(passing):
+        pp = os.path.join(VERIF, 'neutral', nid, 'patch.diff')
+        if prop in passing[nid] and os.path.exists(pp):
+            out.append({'id': 'neutral-' + nid, 'patch': pp, 'expect': 'silent'})
+    return out
 
 
 def seeded_cases(prop):
